@@ -193,8 +193,8 @@ inductive St where
   | sumIntD (s : Int) (seen : List Val)
   | sumFloat (f : Nat)
   | sumFloatD (f : Nat) (seen : List Val)
-  | avg (f : Nat) (n : Int)
-  | avgD (f : Nat) (n : Int) (seen : List Val)
+  | avg (s : Int) (f : Nat) (n : Int)         -- exact integer sum, float sum of the rest, count
+  | avgD (s : Int) (f : Nat) (n : Int) (seen : List Val)
   | min (m : Option Val)
   | max (m : Option Val)
   | collect (l : List Val)
@@ -210,8 +210,8 @@ def St.init (fn : AggFn) (distinct : Bool) : St :=
   | .countNonNull, true => .countD 0 []
   | .sum, false => .sumInt 0
   | .sum, true => .sumIntD 0 []
-  | .avg, false => .avg 0 0
-  | .avg, true => .avgD 0 0 []
+  | .avg, false => .avg 0 0 0
+  | .avg, true => .avgD 0 0 0 []
   | .min, _ => .min none
   | .max, _ => .max none
   | .collect, false => .collect []
@@ -225,16 +225,32 @@ def valueToF64 : Val → Option Nat
 
 def inI64 (i : Int) : Bool := decide (-(2 ^ 63 : Int) ≤ i) && decide (i < (2 ^ 63 : Int))
 
-/-- `compare_values` of aggregate.rs on the value kinds a property can have here -/
+/-- `compare_values` of aggregate.rs on the value kinds a property can have here: numbers and
+text that reads as a number compare by numeric value and come before all other text, which
+compares lexicographically -/
+def cmpStrStr (x y : String) : Option Ordering :=
+  match parseF64 x.toList, parseF64 y.toList with
+  | some fx, some fy => partialCmp fx fy
+  | some _, none => some .lt
+  | none, some _ => some .gt
+  | none, none => some (compare x y)
+
+def cmpStrInt (s : String) (i : Int) : Option Ordering :=
+  match parseF64 s.toList with
+  | some fs => partialCmp fs (ofInt i)
+  | none => some .gt
+
+def cmpIntStr (i : Int) (s : String) : Option Ordering :=
+  match parseF64 s.toList with
+  | some fs => partialCmp (ofInt i) fs
+  | none => some .lt
+
 def cmpAgg (a b : Val) : Option Ordering :=
   match a, b with
   | .int x, .int y => some (compare x y)
-  | .str x, .str y =>
-    (match parseF64 x.toList, parseF64 y.toList with
-     | some fx, some fy => partialCmp fx fy
-     | _, _ => some (compare x y))
-  | .str s, .int i => (parseF64 s.toList).bind (fun fs => partialCmp fs (ofInt i))
-  | .int i, .str s => (parseF64 s.toList).bind (fun fs => partialCmp (ofInt i) fs)
+  | .str x, .str y => cmpStrStr x y
+  | .str s, .int i => cmpStrInt s i
+  | .int i, .str s => cmpIntStr i s
   | _, _ => none
 
 def minStep (cur : Option Val) (v : Val) : Option Val :=
@@ -247,11 +263,10 @@ def maxStep (cur : Option Val) (v : Val) : Option Val :=
   | none => some v
   | some c => if cmpAgg v c = some .gt then some v else some c
 
-/-- `sum.checked_add(v)`: an integer sum that leaves the `i64` range continues in the float
-accumulator, `sum as f64 + v as f64` -/
+/-- the integer sum is kept in 128 bits (here: an unbounded integer — 2^64 addends of 64 bits fit) -/
 def sumIntStep (s : Int) (v : Val) : St :=
   match v with
-  | .int i => if inI64 (s + i) then .sumInt (s + i) else .sumFloat (fadd (ofInt s) (ofInt i))
+  | .int i => .sumInt (s + i)
   | .str t => (match parseF64 t.toList with
                | some x => .sumFloat (fadd (ofInt s) x)
                | none => .sumInt s)
@@ -260,7 +275,7 @@ def sumIntStep (s : Int) (v : Val) : St :=
 def sumIntDStep (s : Int) (seen : List Val) (v : Val) : St :=
   if seen.contains v then .sumIntD s seen
   else match v with
-    | .int i => if inI64 (s + i) then .sumIntD (s + i) (v :: seen) else .sumFloatD (fadd (ofInt s) (ofInt i)) (v :: seen)
+    | .int i => .sumIntD (s + i) (v :: seen)
     | .str t => (match parseF64 t.toList with
                  | some x => .sumFloatD (fadd (ofInt s) x) (v :: seen)
                  | none => .sumIntD s (v :: seen))
@@ -271,6 +286,15 @@ def sumFloatStep (f : Nat) (v : Val) : Nat :=
   | some x => fadd f x
   | none => f
 
+/-- AVG: integers are summed exactly, the other numeric inputs (numeric text) in a float -/
+def avgStep (s : Int) (f : Nat) (n : Int) (v : Val) : St :=
+  match v with
+  | .int i => .avg (s + i) f (n + 1)
+  | .str t => (match parseF64 t.toList with
+               | some x => .avg s (fadd f x) (n + 1)
+               | none => .avg s f n)
+  | .null => .avg s f n
+
 /-- `AggregateState::update(Some(v))` -/
 def St.update (st : St) (v : Val) : St :=
   match st with
@@ -280,29 +304,34 @@ def St.update (st : St) (v : Val) : St :=
   | .sumIntD s seen => sumIntDStep s seen v
   | .sumFloat f => .sumFloat (sumFloatStep f v)
   | .sumFloatD f seen => if seen.contains v then .sumFloatD f seen else .sumFloatD (sumFloatStep f v) (v :: seen)
-  | .avg f n => (match valueToF64 v with
-                 | some x => .avg (fadd f x) (n + 1)
-                 | none => .avg f n)
-  | .avgD f n seen =>
-    if seen.contains v then .avgD f n seen
-    else (match valueToF64 v with
-          | some x => .avgD (fadd f x) (n + 1) (v :: seen)
-          | none => .avgD f n (v :: seen))
+  | .avg s f n => avgStep s f n v
+  | .avgD s f n seen =>
+    if seen.contains v then .avgD s f n seen
+    else (match avgStep s f n v with
+          | .avg s' f' n' => .avgD s' f' n' (v :: seen)
+          | other => other)
   | .min m => .min (minStep m v)
   | .max m => .max (maxStep m v)
   | .collect l => .collect (l ++ [v])
   | .collectD l seen => if seen.contains v then .collectD l seen else .collectD (l ++ [v]) (v :: seen)
 
+/-- SUM: the integer total when it fits `i64`, otherwise the nearest float (`sum as f64`) -/
+def sumOut (s : Int) : AVal := if inI64 s then .int s else .float (ofInt s)
+
+/-- AVG: `(int_sum as f64 + float_sum) / count as f64` -/
+def avgOut (s : Int) (f : Nat) (n : Int) : AVal :=
+  if n = 0 then .null else .float (fdiv (fadd (ofInt s) f) (ofInt n))
+
 /-- `AggregateState::finalize` -/
 def St.finalize : St → AVal
   | .count n => .int n
   | .countD n _ => .int n
-  | .sumInt s => .int s
-  | .sumIntD s _ => .int s
+  | .sumInt s => sumOut s
+  | .sumIntD s _ => sumOut s
   | .sumFloat f => .float f
   | .sumFloatD f _ => .float f
-  | .avg f n => if n = 0 then .null else .float (fdiv f (ofInt n))
-  | .avgD f n _ => if n = 0 then .null else .float (fdiv f (ofInt n))
+  | .avg s f n => avgOut s f n
+  | .avgD s f n _ => avgOut s f n
   | .min m => ofVal (m.getD .null)
   | .max m => ofVal (m.getD .null)
   | .collect l => .list l
@@ -358,8 +387,9 @@ def hashAgg (groupCols : List Nat) (aggs : List AggExpr) (chunks : List (List Ro
 
 Nulls are ignored. `count` counts, `sum` of integers is the exact integer (when it leaves the
 64-bit range the result is not constrained: the code continues with a float), `avg` is the exact
-mean rounded once to a double, `sum` / `avg` of a value that is not a number is a type error, `min` / `max` pick the extremum of the value order (strings before
-numbers, as in openCypher's orderability; strings by code points, integers by value), `collect`
+mean rounded once to a double, `sum` / `avg` of a value that is not a number is a type error, `min` / `max` pick the extremum of the value order (numbers before
+strings, as in the engine's own total order `OrderableValue`; integers by value, strings by code
+points — a string is a string, whatever it spells), `collect`
 gathers the values. DISTINCT removes duplicates first. -/
 
 inductive SRes where
@@ -392,7 +422,7 @@ def specLt (a b : Val) : Bool :=
   match a, b with
   | .int x, .int y => x < y
   | .str x, .str y => x < y
-  | .str _, .int _ => true
+  | .int _, .str _ => true
   | _, _ => false
 
 def specMin : List Val → Option Val
@@ -473,8 +503,8 @@ def Item.isKey : Item → Bool
 def keyItems (items : List Item) : List Item := items.filter Item.isKey
 def aggItems (items : List Item) : List Item := items.filter (fun i => !i.isKey)
 
-/-- `try_extract_aggregate` (both translators): `count(x)` becomes `CountNonNull`, an aggregate
-without argument `Count` -/
+/-- `try_extract_aggregate` (both translators): `count(x)` becomes `CountNonNull`; `count(*)` is
+parsed as the argument-less `count()`, which becomes `Count` -/
 def specFn : SFn → AggFn
   | .countStar => .count
   | .count => .countNonNull
@@ -500,8 +530,6 @@ def physAgg (c : Nat) : Item → AggExpr
 
 def physAggs (q : AggQ) : List AggExpr :=
   (aggItems q.items).zipIdx.map (fun (i, j) => physAgg ((keyItems q.items).length + j) i)
-
-def hasCountStar (q : AggQ) : Bool := q.items.any (fun i => match i with | .agg .countStar _ _ => true | _ => false)
 
 /-! ### ordering of result rows (`sort.rs`) -/
 
@@ -573,11 +601,9 @@ def aggRows (q : AggQ) (bs : List Binding) : List (List AVal) :=
   if nk = 0 then [simpleAgg (physAggs q) [rows]] else hashAgg (List.range nk) (physAggs q) [rows]
 
 def finishAgg (q : AggQ) (bs : List Binding) : Res :=
-  if hasCountStar q then .error "syntax"       -- neither parser accepts `*` as an argument
-  else
-    let out := aggRows q bs
-    let out := if q.orderBy.isEmpty then out else sortA (q.orderBy.map (fun (i, asc) => (outPos q.items i, asc))) out
-    .rows (window q.skip q.limit out)
+  let out := aggRows q bs
+  let out := if q.orderBy.isEmpty then out else sortA (q.orderBy.map (fun (i, asc) => (outPos q.items i, asc))) out
+  .rows (window q.skip q.limit out)
 
 /-- as coded: the scan / expand pipeline feeds the aggregate operator -/
 def Pipe.execAgg (g : Graph) (q : AggQ) : Res := finishAgg q (Pipe.bindings g q.core)
@@ -676,7 +702,7 @@ def sortByLast (k : Nat) (asc : Bool) (bs : List Binding) : List Binding :=
     (fun sr => match sr with | [_, .int i] => bs[i.toNat]? | _ => none)
 
 /-- the steps after the pattern, on a list of bindings (plan rows; their edge columns play no role) -/
-def gremSteps (keepMissing : Bool) (q : GremQ) (bs : List Binding) : List Val :=
+def gremSteps (q : GremQ) (bs : List Binding) : List Val :=
   let bs := bs.filter (passes q.preds)
   let bs := if q.dedup == .nodes then dedupByLast bs else bs
   let bs := match q.order with
@@ -685,14 +711,14 @@ def gremSteps (keepMissing : Bool) (q : GremQ) (bs : List Binding) : List Val :=
   let bs := window q.skip q.limit bs
   -- the current column: the projected value, or the vertex (read as its id)
   let vals : List Val := match q.proj with
-    | some k => (if keepMissing then id else nonNull) (bs.map (fun b => lastProp b k))
+    | some k => nonNull (bs.map (fun b => lastProp b k))     -- `values(k)`: only the values that exist
     | none => bs.map lastId
   if q.dedup == .values then dedupVals vals else vals
 
-/-- as coded: `values(k)` is a projection and yields a null where the property is missing; the
-reducing steps are the simple aggregate over the current column -/
+/-- as coded: `values(k)` filters on the presence of the property and projects it; the reducing
+steps are the simple aggregate over the current column -/
 def Pipe.execGremlin (g : Graph) (q : GremQ) : Res :=
-  let vals := gremSteps true q (Pipe.bindings g q.core)
+  let vals := gremSteps q (Pipe.bindings g q.core)
   match q.agg with
   | none => .rows (vals.map (fun v => [ofVal v]))
   | some a => .rows [simpleAgg [{ fn := gAggFn a, col := some 0, distinct := false }] [vals.map (fun v => [v])]]
@@ -704,7 +730,7 @@ empty stream, where Gremlin dialects differ) -/
 def Spec.evalGremlin (g : Graph) (q : GremQ) : Res :=
   if q.order.isNone && (q.skip.isSome || q.limit.isSome) then .unconstrained
   else
-    let vals := gremSteps false q (Spec.bindings g q.core)
+    let vals := gremSteps q (Spec.bindings g q.core)
     match q.agg with
     | none => .rows (vals.map (fun v => [ofVal v]))
     | some .count => .rows [[.int vals.length]]
@@ -735,25 +761,24 @@ def GqlQ.core (q : GqlQ) : Q :=
 
 def projA (cols : List (Nat × Nat)) (b : Binding) : List AVal := (project cols b).map ofVal
 
-/-- as coded: Sort is placed above Return and asks for a property of the root variable, which
-Return has already projected away: every `orderBy` on a field with a selection set fails -/
-def Pipe.execGraphql (g : Graph) (q : GqlQ) : Res :=
-  if q.order.isSome then .error "internal"
-  else
-    let kept := (Pipe.bindings g q.core).filter (passes q.preds)
-    .rows (window q.skip q.first (kept.map (projA q.cols)))
-
 def sortBindingsByRoot (k : Nat) (asc : Bool) (bs : List Binding) : List Binding :=
   (sortA [(0, asc)] (bs.zipIdx.map (fun (b, i) => [ofVal (valAt b 0 k), .int i]))).filterMap
     (fun sr => match sr with | [_, .int i] => bs[i.toNat]? | _ => none)
 
+/-- the clauses after the pattern: `orderBy` sorts the bound rows by a property of the root
+(the Sort sits below the projection of the selected fields), `skip` / `first` cut the projected rows -/
+def gqlFinish (q : GqlQ) (bs : List Binding) : List (List AVal) :=
+  let kept := bs.filter (passes q.preds)
+  let kept := match q.order with
+    | some (k, asc) => sortBindingsByRoot k asc kept
+    | none => kept
+  window q.skip q.first (kept.map (projA q.cols))
+
+def Pipe.execGraphql (g : Graph) (q : GqlQ) : Res := .rows (gqlFinish q (Pipe.bindings g q.core))
+
 def Spec.evalGraphql (g : Graph) (q : GqlQ) : Res :=
-  let kept := (Spec.bindings g q.core).filter (passes q.preds)
-  match q.order with
-  | some (k, asc) => .rows (window q.skip q.first ((sortBindingsByRoot k asc kept).map (projA q.cols)))
-  | none =>
-    if q.skip.isSome || q.first.isSome then .unconstrained
-    else .rows (kept.map (projA q.cols))
+  if q.order.isNone && (q.skip.isSome || q.first.isSome) then .unconstrained
+  else .rows (gqlFinish q (Spec.bindings g q.core))
 
 /-- two sibling selections `{ l { k9 t1 { k9 } t2 { k9 } } }`: both hops leave the root.
 As coded: the second Expand does not continue the first (`continues_chain`), so each is planned
